@@ -1414,9 +1414,16 @@ pub fn shrink(ops: &[Op], sig: &str) -> Vec<Op> {
     let mut chunk = (cur.len() / 2).max(1);
     let mut budget = 3000;
     let mut len_at_last_unit_pass = usize::MAX;
+    // minimisation is a convenience for the reader of the witness, never part of a verdict:
+    // on long histories over large graphs it stops after a few seconds with what it has
+    let deadline = std::time::Instant::now() + std::time::Duration::from_secs(8);
     loop {
         let mut i = 0;
         while i < cur.len() && budget > 0 {
+            if std::time::Instant::now() > deadline {
+                budget = 0;
+                break;
+            }
             let mut cand = cur.clone();
             let hi = (i + chunk).min(cand.len());
             cand.drain(i..hi);
@@ -1579,7 +1586,7 @@ fn run_history(family: &'static str, index: u64, r: &mut Rng, named_beyond: bool
 /// 64, the vector backend's automatic packing threshold `holes * 10 > slots` reached by
 /// churn on a big table, long hole lists).
 fn run_history_large(family: &'static str, index: u64, r: &mut Rng) {
-    let prof = Profile { cap: *r.pick(&[70usize, 100, 150]), named_beyond: false, churn: *r.pick(&[1.0, 3.0, 5.0]), len: r.range(250, 600) as usize };
+    let prof = Profile { cap: *r.pick(&[70usize, 100, 150, 200]), named_beyond: false, churn: *r.pick(&[1.0, 3.0, 5.0]), len: r.range(250, 600) as usize };
     run_history_with(family, index, r, prof, true)
 }
 
@@ -1597,10 +1604,29 @@ fn run_history_with(family: &'static str, index: u64, r: &mut Rng, prof: Profile
             ops.push(Op::AddVertexWithPhase { ty, ph: gen_phase(r), m: next_m });
             next_m += 1;
         }
+        // shape: a sparse chain, or the same with one or two hubs joined to (almost) every vertex
+        let hubs = match r.below(5) {
+            0 | 1 => 0,
+            2 | 3 => 1,
+            _ => 2,
+        };
         for i in 1..n0 {
             let j = i - 1 - r.below(3.min(i));
-            ops.push(Op::AddEdgeWithType { s: j as M, t: i as M, e: gen_etype(r) });
+            if j >= hubs || r.chance(0.3) {
+                ops.push(Op::AddEdgeWithType { s: j as M, t: i as M, e: gen_etype(r) });
+            }
         }
+        for h in 0..hubs {
+            for i in hubs..n0 {
+                if r.chance(0.97) {
+                    // both argument orders occur
+                    let (s, t) = if r.chance(0.5) { (h, i) } else { (i, h) };
+                    ops.push(Op::AddEdgeWithType { s: s as M, t: t as M, e: gen_etype(r) });
+                }
+            }
+        }
+        // an edge may have been requested twice (chain + hub): the executor treats a repeated
+        // add_edge_with_type as the documented overwrite, like anywhere else in a history
         for op in ops {
             if !matches!(run.feed(op), Feed::Continue) {
                 run.finish("bulk-phase-stopped");
